@@ -57,6 +57,11 @@ class Run:
         from aw_core.models import Event
         self.Event, self.ds, self.kind, self.rnd = Event, ds, kind, rnd
         self.vals = {n: rand_triple(rnd) for n in ("v1", "v2", "v3", "v4")}
+        if rnd.random() < 0.3:
+            # v1 and v2 carry data that is EQUAL for Python (1 == True == 1.0) but not the same JSON document: what comes back
+            # is the document that went in
+            self.vals["v1"] = self.vals["v1"][:2] + ({"afk": 1, "load": 0, "t": "x"},)
+            self.vals["v2"] = self.vals["v2"][:2] + ({"afk": True, "load": 0.0, "t": "x"},)
         self.names = {}
         for n, (ts, dur, data) in self.vals.items():
             self.names[canon_event(Event(timestamp=ts, duration=dur, data=copy.deepcopy(data)))] = n
@@ -165,7 +170,8 @@ class Run:
             how = op["how"]
             rec.update(how=how, id=-1, got="None")
             if how == "metadata":
-                m = self.bucket.metadata()
+                # the bucket's description is handed out by the bucket handle or by the datastore's listing
+                m = self.bucket.metadata() if self.rnd.random() < 0.5 else self.ds.buckets()[self.bid]
                 rec["got"] = self.mname(m)
                 self.refs[op["ref"]] = [m]
             else:
